@@ -47,6 +47,15 @@ type ConstTable struct {
 	Obj  types.Object
 	M    map[int64]int64
 	Keys []int64
+	Def  int64 // value for keys that are not listed (zero for maps and arrays)
+}
+
+// At returns the table's value for key k.
+func (t *ConstTable) At(k int64) int64 {
+	if v, ok := t.M[k]; ok {
+		return v
+	}
+	return t.Def
 }
 
 func (t *BTerm) Key() string { return t.key }
@@ -477,20 +486,20 @@ func (e *Env) baseIv(t *BTerm) Iv {
 		var vals []int64
 		if s, ok := e.sets[e.canon(t.Args[0]).key]; ok {
 			for k := range s {
-				vals = append(vals, t.Tab.M[k]) // missing key -> zero value
+				vals = append(vals, t.Tab.At(k)) // missing key -> default
 			}
 		} else {
 			kiv := e.IvTerm(t.Args[0])
 			all := true
 			for _, k := range t.Tab.Keys {
 				if k >= kiv.Lo && k <= kiv.Hi {
-					vals = append(vals, t.Tab.M[k])
+					vals = append(vals, t.Tab.At(k))
 				} else {
 					all = false
 				}
 			}
 			_ = all
-			vals = append(vals, 0)
+			vals = append(vals, t.Tab.Def)
 		}
 		if len(vals) == 0 {
 			return Iv{0, 0}
